@@ -173,6 +173,8 @@ impl<'a> Hist<'a> {
                             RecvOut::End if *k != CallKind::TryIterNext => {
                                 s.ends.push((c.t0, c.t1, c.handle, *k))
                             }
+                            // a non-blocking iterator stops on Empty and on the end alike: no information
+                            RecvOut::End => {}
                             _ => s.empties.push((c.t0, c.t1, c.handle)),
                         }
                     }
